@@ -13,13 +13,13 @@ LEVEL = "model_checking"
 PID = "C18"
 
 
-def write_mc(workdir, name, kinds, maxlen, captures=False):
+def write_mc(workdir, name, kinds, maxlen, captures=False, load_drops=True):
     os.makedirs(workdir, exist_ok=True)
     mod = "MC_Persist_" + name
     with open(os.path.join(workdir, mod + ".tla"), "w") as f:
         f.write("---- MODULE %s ----\nEXTENDS Persist\nKindsDef == {%s}\n====\n" % (mod, ", ".join('"%s"' % k for k in sorted(kinds))))
     cfg = os.path.join(workdir, mod + ".cfg")
-    tlc.write_cfg(cfg, spec="Spec", constants={"Kinds": "<- KindsDef", "ClosureCapturesOwner": captures, "MaxV": 2, "MaxLen": maxlen},
+    tlc.write_cfg(cfg, spec="Spec", constants={"Kinds": "<- KindsDef", "ClosureCapturesOwner": captures, "LoadDropsCaches": load_drops, "MaxV": 2, "MaxLen": maxlen},
                   invariants=["RoundTripExact", "NoForeignCache"])
     return os.path.join(workdir, mod + ".tla"), cfg
 
@@ -112,7 +112,8 @@ def zoo():
         x, y, xs = data(7)
         i = (torch.arange(x.shape[0]) % 2).unsqueeze(-1)
         lik = L.GaussianLikelihood()
-        model = Hadamard(x, i, y, lik, prior=P.LKJCovariancePrior(2, 1.0 + 0.1 * (seed % 5), P.SmoothedBoxPrior(0.05, 2.0))).to(D)
+        # prior parameters differ between original and fresh construction ((seed + 1000) % 7 != seed % 7; "% 5" made them equal by accident)
+        model = Hadamard(x, i, y, lik, prior=P.LKJCovariancePrior(2, 1.0 + 0.1 * (seed % 7), P.SmoothedBoxPrior(0.05, 2.0))).to(D)
         tweak(model, seed)
         return dict(model=model, lik=lik, x=(x, i), y=y, xs=(xs, torch.tensor([[0], [1], [0]])), kind="exact")
     fams["hadamard_lkj"] = hadamard
@@ -134,6 +135,7 @@ def zoo():
     svgp("svgp_natural", "std", "nat")
     svgp("svgp_trilnatural", "std", "trilnat")
     svgp("usvgp_chol", "unw", "chol")
+    svgp("svgp_gridinterp", "grid", "chol")
     svgp("svgp_lmc", "std", "chol", "lmc")
     svgp("svgp_indep_mt", "std", "chol", "indep")
 
@@ -181,6 +183,9 @@ def observables(m, save_mode):
         out["pred.mean"], out["pred.cov"] = p.mean.detach().clone(), p.covariance_matrix.detach().clone()
         q = lik(p) if m["kind"] == "svgp" or not isinstance(lik, gpytorch.likelihoods.FixedNoiseGaussianLikelihood) else lik(p, noise=torch.full(p.mean.shape, 0.07, dtype=p.mean.dtype))
         out["marginal.var"] = q.variance.detach().clone()
+        # mean-only prediction (skip_posterior_variances): a code path of its own, with caches of its own
+        with settings.skip_posterior_variances(True):
+            out["pred_meanonly.mean"] = model(*m["xs"]).mean.detach().clone()
         model.train(); lik.train()
         if m["kind"] == "exact":
             mll = gpytorch.mlls.ExactMarginalLogLikelihood(lik, model)
@@ -224,6 +229,16 @@ def to_save_point(m, point):
     model, lik = m["model"], m["lik"]
     model.train(); lik.train()
     if point == "fresh":
+        return
+    if point == "called":
+        # (receivers only) one forward pass in training mode - the initial loss was evaluated: lazily created state exists, nothing else happened
+        with torch.no_grad():
+            if m["kind"] == "list":
+                gpytorch.mlls.SumMarginalLogLikelihood(lik, model)(model(*model.train_inputs), model.train_targets)
+            elif m["kind"] == "exact":
+                gpytorch.mlls.ExactMarginalLogLikelihood(lik, model)(model(*m["x"]), m["y"])
+            else:
+                gpytorch.mlls.VariationalELBO(lik, model, num_data=m["y"].shape[0])(model(m["x"][0]), m["y"])
         return
     params = list(model.parameters()) + ([] if m["kind"] != "svgp" else list(lik.parameters()))
     opt = torch.optim.SGD(params, lr=0.02)
@@ -270,24 +285,108 @@ def to_save_point(m, point):
             [o.covariance_matrix for o in outs]
         else:
             model(*m["xs"]).covariance_matrix
+            with settings.skip_posterior_variances(True):
+                model(*m["xs"]).mean
+
+
+RECV = {"state_dict": "fresh", "state_dict_into_called": "called", "state_dict_into_used": "used"}     # receiver history (Persist.tla: Recvs)
+
+
+class LoadRaised(Exception):
+    """load_state_dict itself raised (the loud failure mode)"""
+
+
+def load_failure(msg):
+    """failure-mode cell of a raising strict load: which keys it complains about"""
+    import re
+    kinds = [k for k, pat in (("missing-key", "Missing key"), ("unexpected-key", "Unexpected key"), ("size-mismatch", "size mismatch")) if pat in msg]
+    names = re.findall(r'"([^"]+)"', msg)
+    leaf = names[0].split(".")[-1] if names else "?"
+    return "raises-on-load/%s/%s" % ("+".join(kinds) or "other", leaf)
+
+
+def uncarried(m, rest):
+    """carrier inventory of the called original against its own state_dict: every tensor reachable from the model as a named buffer or a public
+    tensor attribute of a sub-module that is NOT a key of the state_dict, and whose value in the restored model is absent or different
+    (so it is neither fixed by the constructor nor derived from carried state).  Returns [(name, original value, holder in the restored model, attr)]"""
+    import torch
+    out = []
+    for part in ("model", "lik"):
+        keys = set(m[part].state_dict().keys())
+        rmods = dict(rest[part].named_modules())
+        for mn, mod in m[part].named_modules():
+            cand = {k: v for k, v in mod._buffers.items() if v is not None}
+            cand.update({k: v for k, v in vars(mod).items() if torch.is_tensor(v) and not k.startswith("_") and not isinstance(v, torch.nn.Parameter)})
+            for k, v in cand.items():
+                full = (mn + "." if mn else "") + k
+                if full in keys:
+                    continue
+                rmod = rmods.get(mn)
+                rv = getattr(rmod, k, None) if rmod is not None else None
+                if torch.is_tensor(rv) and rv.shape == v.shape and torch.equal(rv, v):
+                    continue
+                out.append((part + "." + full, v.detach().clone(), rmod, k))
+    return out
+
+
+def relevant_uncarried(unc, rest, point, o2):
+    """those of uncarried() (taken at the save point, right after the load) that are prediction relevant: giving the restored model the
+    original's value changes its observables"""
+    import torch
+    hits = []
+    for name, v, rmod, k in unc:
+        if rmod is None:
+            continue
+        old = getattr(rmod, k, None)
+        try:
+            if k in rmod._buffers:
+                rmod._buffers[k] = v.detach().clone()
+            else:
+                setattr(rmod, k, v.detach().clone())
+            for part in ("model", "lik"):
+                was = rest[part].training
+                rest[part].train(not was); rest[part].train(was)          # drop derived caches
+            ok, o3 = core.guarded(lambda: observables(rest, point))
+        finally:
+            if k in rmod._buffers:
+                if old is None:
+                    del rmod._buffers[k]
+                else:
+                    rmod._buffers[k] = old
+            elif old is None:
+                delattr(rmod, k)
+            else:
+                setattr(rmod, k, old)
+            for part in ("model", "lik"):
+                was = rest[part].training
+                rest[part].train(not was); rest[part].train(was)
+        if not ok or any(kk not in o3 or not core.close(o3[kk], o2[kk], 1e-12, 1e-13)[0] for kk in o2):
+            hits.append(name)
+    return hits
 
 
 def round_trip(fams, fam, m, mech, seed):
     """returns the restored bundle"""
     import torch
     model, lik = m["model"], m["lik"]
-    if mech in ("state_dict", "state_dict_into_used"):
+    if mech in RECV:
         fresh = fams[fam](seed + 1000)                     # same architecture, different construction seed / hyperparameters
         if mech == "state_dict_into_used":
-            # the receiving model has already predicted in eval mode with ITS parameters: loading must not leave those caches in effect
+            # the receiving model has already predicted in eval mode (full and mean-only) with ITS parameters: loading must not leave those caches in effect
             to_save_point(fresh, "eval_predicted")
+        elif mech == "state_dict_into_called":
+            # the receiving model has been called once (lazily created state exists on its side too)
+            to_save_point(fresh, "called")
         buf = io.BytesIO()
         torch.save({"model": model.state_dict(), "lik": lik.state_dict()}, buf)
         buf.seek(0)
         sd = torch.load(buf)
-        fresh["model"].load_state_dict(sd["model"])
-        if m["kind"] != "exact":
-            fresh["lik"].load_state_dict(sd["lik"])
+        try:
+            fresh["model"].load_state_dict(sd["model"])
+            if m["kind"] != "exact":
+                fresh["lik"].load_state_dict(sd["lik"])
+        except Exception as e:
+            raise LoadRaised(str(e))
         fresh["model"].train(model.training)
         fresh["lik"].train(lik.training)
         return fresh
@@ -321,9 +420,14 @@ def _worker(item):
             return [dict(machinery="cannot bring %s to save point %s: %s" % (fam, point, e))]
         ok, rest = core.guarded(lambda: round_trip(_FAMS, fam, m, mech, seed))
         if not ok:
-            r.update(ok=False, sig=r["sig"] + "/raises", detail="%s: the round trip raised %s" % (desc, rest))
+            mode = load_failure(rest) if rest.startswith("LoadRaised:") else "raises"
+            r.update(ok=False, sig=r["sig"] + "/" + mode, detail="%s: the round trip raised %s" % (desc, rest), mode=mode.split("/")[0])
             out.append(r)
             continue
+        if mech in RECV:
+            ok, unc = core.guarded(lambda: uncarried(m, rest))          # inventory at the save point, before anything else is evaluated
+            if not ok:
+                return [dict(machinery="carrier inventory of %s failed: %s" % (desc, unc))]
         ok, o1 = core.guarded(lambda: observables(m, point))
         if not ok:
             return [dict(machinery="observables of the original %s failed: %s" % (fam, o1))]
@@ -347,11 +451,32 @@ def _worker(item):
         extra = sorted(set(o2) - set(o1))
         if extra:
             bad.append("restored model has extra %s" % extra[:3])
-        if bad:
-            r.update(ok=False, sig=r["sig"] + "/" + bad[0].split(":")[0].split(".")[0], detail="%s: %s" % (desc, "; ".join(bad[:4])))
+        what = bad[0].split(":")[0].split(".")[0] if bad else ""
+        if bad and mech in RECV:
+            # failure mode of a load that succeeded: a carrier without a key, or carried state that does not reproduce the observables
+            ok, hits = core.guarded(lambda: relevant_uncarried(unc, rest, point, o2))
+            if ok and hits:
+                r.update(ok=False, sig=r["sig"] + "/carrier-missing-from-state-dict/" + hits[0].split(".")[-1], mode="carrier-missing-from-state-dict",
+                         detail="%s: the strict load succeeded, but %s of the original is not a key of its state_dict and the restored model has another value; %s" % (desc, hits[:3], "; ".join(bad[:3])))
+            else:
+                r.update(ok=False, sig=r["sig"] + "/loads-silently-but-differs/" + what, mode="loads-silently-but-differs", detail="%s: the strict load succeeded, but %s" % (desc, "; ".join(bad[:4])))
+        elif bad:
+            r.update(ok=False, sig=r["sig"] + "/" + what, detail="%s: %s" % (desc, "; ".join(bad[:4])))
         out.append(r)
         if bad:
             continue
+        if mech in RECV:
+            # carrier inventory (Persist.tla): every prediction-relevant tensor reachable from the called model is a parameter, a PERSISTENT buffer, or
+            # fixed by the constructor / derived from them - also where the compared observables happen to agree
+            r3 = dict(key=[fam, point, mech, "carriers"], ok=True, sig="C18/%s/%s/%s" % (fam, mech, point), case=c,
+                      nontrivial=any(True for _ in m["model"].named_buffers()))
+            ok, hits = core.guarded(lambda: relevant_uncarried(unc, rest, point, o2))
+            if not ok:
+                return [dict(machinery="carrier inventory of %s failed: %s" % (desc, hits))]
+            if hits:
+                r3.update(ok=False, sig=r3["sig"] + "/carrier-missing-from-state-dict/" + hits[0].split(".")[-1], mode="carrier-missing-from-state-dict",
+                          detail="%s: %s of the original is not a key of its state_dict, the restored model has another value, and that value changes the restored model's observables" % (desc, hits[:3]))
+            out.append(r3)
         # the restored model is a model of its own: (A) changing it leaves the original alone, (B) the same change applied to
         # both keeps them identical (closures of priors / constraints read the parameters of the object they belong to)
         r2 = dict(key=[fam, point, mech, "diverge"], ok=True, nontrivial=True, sig="C18/%s/%s/%s" % (fam, mech, point), case=c)
@@ -425,9 +550,14 @@ def inventory(fams, fam):
     if any(True for _ in a["model"].named_priors()):
         kinds.add("closure")
     keys0 = set(a["model"].state_dict())
+    unc0 = {name for name, _, _, _ in uncarried(a, b)}
     to_save_point(a, "eval_predicted")
+    to_save_point(b, "eval_predicted")
     if set(a["model"].state_dict()) - keys0:
         kinds.add("lazybuf")
+    # state created by the first call that has no key in the state_dict and differs between two constructions (non-persistent buffer / attribute)
+    if {name for name, _, _, _ in uncarried(a, b)} - unc0:
+        kinds.add("npbuf")
     return kinds
 
 
@@ -436,10 +566,16 @@ def run(ck):
     core.setup_torch()
     ck.rule = ("cases = model family (exact x kernels/likelihoods/priors/constraints, SGPR, KISS-GP, multitask, Hadamard+LKJ, LCM, variational strategies x "
                "distributions, model list) x save point (fresh, trained, eval+predicted, attached caches) x mechanism (state_dict into a freshly and differently "
-               "constructed model, pickle, deepcopy); non-trivial = all; the restored model's prior, predictive, objective, constraint bounds and prior "
-               "parameters are compared with the original's (bit-for-bit for pickle/deepcopy, 1e-12 for state_dict)")
+               "constructed model that is fresh / was called once / has served full and mean-only predictions, pickle, deepcopy); non-trivial = all; the "
+               "restored model's prior, predictive (full and mean-only), objective, constraint bounds and prior "
+               "parameters are compared with the original's (bit-for-bit for pickle/deepcopy, 1e-12 for state_dict); state_dict cells name their failure "
+               "mode (raises-on-load/<keys>, carrier-missing-from-state-dict/<tensor>, loads-silently-but-differs/<observable>); carrier inventory per "
+               "state_dict cell: named buffers and public tensor attributes of the called original without a state_dict key must be reproduced by "
+               "the receiver or be irrelevant to its observables")
     ck.assumptions = ["'freshly constructed model of the same architecture' = the same constructor call under another random seed, then different hyperparameters, "
-                      "prior parameters and constraint bounds registered the same way", "float64; 7 training points"]
+                      "prior parameters and constraint bounds registered the same way (every prior, the LKJ shape parameter included)", "float64; 7 training points",
+                      "state drawn at the first call on both sides (a never-called original loaded into a never-called receiver) is drawn under the same RNG seed",
+                      "a tensor without a state_dict key is 'prediction relevant' when giving the restored model the original's value changes the restored model's observables"]
     fams = zoo()
     inv = {}
     for f in fams:
@@ -455,10 +591,21 @@ def run(ck):
     ck.extra["carrier_inventory"] = {"+".join(sorted(k)): v for k, v in classes.items()}
     wd = os.path.join(tlc.BUILD, PID)
     jobs, names = [], []
+    lazy_kinds = {"lazybuf", "npbuf"}
     for j, (kinds, fl) in enumerate(classes.items()):
-        mod, cfg = write_mc(wd, "inv%d" % j, kinds, 5 if thorough else 4)
-        jobs.append(((mod, cfg), dict(name=PID + "/inv%d" % j, check=False, workers=4, dump=(j == 0))))
+        # classes with lazily created state: the whole state space is dumped (-continue) - the failure mode the model predicts per
+        # (mechanism, receiver history, original called?) is compared with the failure mode of the replayed cell
+        lazy = bool(kinds & lazy_kinds)
+        mod, cfg = write_mc(wd, "inv%d" % j, kinds, 4 if lazy else (5 if thorough else 4))
+        jobs.append(((mod, cfg), dict(name=PID + "/inv%d" % j, check=False, workers=4, dump=lazy, extra=(("-continue",) if lazy else ()))))
         names.append((kinds, fl))
+    # the two carrier kinds of lazily created state are always model-checked, whether or not the current tree has a family of that kind
+    kind_runs = [k for k in sorted(lazy_kinds) if frozenset({"param", "buffer", "cache", k}) not in classes]     # (a family class of exactly these kinds is that run)
+    for k in kind_runs:
+        mod, cfg = write_mc(wd, "kind_" + k, {"param", "buffer", "cache", k}, 3)
+        jobs.append(((mod, cfg), dict(name=PID + "/kind_" + k, check=False, workers=2, dump=True, extra=("-continue",))))
+    mod, cfg = write_mc(wd, "load_keeps_caches", {"param", "buffer", "cache"}, 3, load_drops=False)
+    jobs.append(((mod, cfg), dict(name=PID + "/load_keeps_caches", check=False, workers=2)))
     mod, cfg = write_mc(wd, "closure_captures_owner", {"param", "buffer", "cache", "closure"}, 3, captures=True)
     jobs.append(((mod, cfg), dict(name=PID + "/closure_captures_owner", check=False, workers=2)))
     rs = tlc.run_many(jobs, parallel=4)
@@ -466,7 +613,31 @@ def run(ck):
     ck.add_tlc(rb, "Persist with a prior closure that captures its owner (must be rejected)")
     if not rb.violation:
         ck.vacuous("Persist.tla accepts a closure that captures its owner")
-    predicted_fail = {}
+    rb = rs.pop()
+    ck.add_tlc(rb, "Persist with a load_state_dict that keeps the receiver's caches (must be rejected)")
+    if not rb.violation or rb.violation["name"] != "NoForeignCache":
+        ck.vacuous("Persist.tla accepts a load into a used model that keeps the receiver's caches")
+
+    def failure_table(r):
+        tab = {}
+        for st in r.states():
+            for rec in st["restored"]:
+                tab.setdefault((rec["mech"], rec["recv"], bool(rec["ran"])), set()).add(rec["failure"])
+        return {k: sorted(v) for k, v in tab.items()}
+    kind_modes = {}
+    import time
+    for k in sorted(lazy_kinds, reverse=True):
+        if k in kind_runs:
+            r = rs.pop()
+            ck.add_tlc(r, "Persist carrier kind " + k)
+        else:
+            r = rs[list(classes).index(frozenset({"param", "buffer", "cache", k}))]
+        tab = failure_table(r)
+        kind_modes[k] = sorted({f for v in tab.values() for f in v} - {"none"})
+        if not r.violation or not kind_modes[k]:
+            ck.vacuous("Persist.tla accepts a family with carrier kind %s" % k)
+    ck.extra["failure_modes_by_lazy_kind"] = kind_modes
+    predicted_fail, predicted_mode = {}, {}
     for (kinds, fl), r in zip(names, rs):
         ck.add_tlc(r, "Persist " + "+".join(sorted(kinds)))
         ck.require_coverage(r, ["Next"]) if False else None
@@ -475,15 +646,24 @@ def run(ck):
                 predicted_fail[f] = r.violation["name"]
         elif r.rc != 0:
             raise tlc.TLCError("TLC failed on Persist:\n" + r.stdout[-1500:])
+        if kinds & lazy_kinds:
+            tab = failure_table(r)
+            if not tab:
+                ck.vacuous("no round trip in the dumped state space of Persist " + "+".join(sorted(kinds)))
+            for f in fl:
+                predicted_mode[f] = tab
     ck.extra["model_predictions"] = predicted_fail
+    ck.extra["model_failure_modes"] = {f: {"/".join(map(str, k)): v for k, v in t.items()} for f, t in predicted_mode.items()}
     points = ["fresh", "trained", "eval_predicted", "attached", "regridded"]
     mechs = ["state_dict", "pickle", "deepcopy"]
     cases = []
     for f in fams:
-        if f not in ("exact_rff_lazy",):
-            # a checkpoint from ANY save point (incl. one taken before the original's first call) into a model that has already been used
-            for p in points:
-                cases.append(dict(fam=f, point=p, mech="state_dict_into_used", seed=ck.seed + 3))
+        # a checkpoint from ANY save point (incl. one taken before the original's first call) into a model that has already been used
+        for p in points:
+            cases.append(dict(fam=f, point=p, mech="state_dict_into_used", seed=ck.seed + 3))
+        # ... and into a model that has merely been called once (lazily created state exists on both sides)
+        for p in (points if thorough or f in predicted_mode else ["trained"]):
+            cases.append(dict(fam=f, point=p, mech="state_dict_into_called", seed=ck.seed + 3))
         for p, mch in itertools.product(points, mechs):
             if not thorough and p == "fresh" and mch != "state_dict":
                 continue
@@ -491,10 +671,19 @@ def run(ck):
             if thorough:
                 cases.append(dict(fam=f, point=p, mech=mch, seed=ck.seed + 17))
     items = [dict(cases=cases[i:i + 3]) for i in range(0, len(cases), 3)]
+    t_replay = time.time()
     results = core.pmap(_worker, items, chunksize=1)
+    # failure mode predicted by the model of the current code vs the failure mode of the replayed cell (families with lazily created state)
+    for r in results:
+        c = r.get("case") or {}
+        if c.get("fam") in predicted_mode and c.get("mech") in RECV and len(r.get("key", [])) == 3:
+            want = predicted_mode[c["fam"]].get(("state_dict", RECV[c["mech"]], c["point"] != "fresh"))
+            got = r.get("mode", "none")
+            if want is not None and got not in want:
+                ck.model_drift("%s saved at '%s' via %s: Persist.tla predicts failure mode %s, the code shows '%s'" % (c["fam"], c["point"], c["mech"], want, got))
     ck.absorb(results)
     ck.absorb(closure_sweep())
-    ck.section("replay", families=len(fams), cases=len(cases))
+    ck.section("replay", families=len(fams), cases=len(cases), wall_replay_s=round(time.time() - t_replay, 1))
 
 
 def closure_sweep():
